@@ -88,6 +88,35 @@ def main():
                 t = parse(sql, d)
                 res = lineage(None, t, schema=schema_for(d), dialect=d or None)
                 r = "; ".join(f"{k}<-" + ",".join(sorted({n.name for n in node.walk() if not n.downstream})) for k, node in res.items())
+            elif op == "schema":
+                mapping = work["mappings"][it["m"]]
+                udfs = work["udfs"][it["m"]]
+                if order_seed:
+                    # same registrations, listed in another order
+                    rnd = random.Random(order_seed + it["m"])
+                    tabs = list(mapping)
+                    rnd.shuffle(tabs)
+                    mapping = {t: dict(mapping[t]) for t in tabs}  # column order is part of a schema (star expansion), table order is not
+                    udfs = dict(rnd.sample(list(udfs.items()), len(udfs)))
+                key = ("map", d, it["m"])
+                if reuse:
+                    if key not in shared_schema:
+                        shared_schema[key] = MappingSchema(mapping, dialect=d or None, udf_mapping=udfs)
+                    sch = shared_schema[key]
+                else:
+                    sch = MappingSchema(mapping, dialect=d or None, udf_mapping=udfs)
+                if it["kind"] == "cols":
+                    r = repr(list(sch.column_names(it["table"])))
+                elif it["kind"] == "type":
+                    r = sch.get_column_type(it["table"], it["col"]).sql()
+                elif it["kind"] == "has":
+                    r = repr(bool(sch.has_column(it["table"], it["col"])))
+                elif it["kind"] == "udf":
+                    r = sch.get_udf_type(f"{it['col']}()").sql()
+                else:
+                    from sqlglot.optimizer import optimize
+
+                    r = optimize(parse(f"SELECT {it['col']} FROM {it['table']}", d), schema=sch, dialect=d or None).sql(dialect=d or None)
             elif op == "simplify":
                 from sqlglot.optimizer.simplify import simplify
 
